@@ -668,6 +668,9 @@ func (f *File) CopySampleData(w io.Writer, rs io.ReadSeeker, trak *TrakBox,
 		for sNr := startNr; sNr <= endNr; sNr++ {
 			size += int64(stbl.Stsz.GetSampleSize(int(sNr)))
 		}
+		if size == 0 {
+			continue // nothing to copy; a zero-length Read at the end of rs may return io.EOF
+		}
 		if mdat.IsLazy() {
 			_, err := rs.Seek(int64(offset), io.SeekStart)
 			if err != nil {
